@@ -108,7 +108,51 @@ C06Cases ==
         ctor("full", [shape |-> <<70, 64>>, k |-> Q(-7, 2)], <<70, 64>>, Q(-7, 2)), ctor("zeros", [shape |-> <<5, 16, 16, 4>>], <<5, 16, 16, 4>>, Zero),
         ctor("ones", [shape |-> <<4100>>], <<4100>>, One) >>
 
-Cases == MyCases(CASE Fam = "c06" -> C06Cases [] Fam = "c03" -> C03Cases [] Fam = "c14" -> C14Cases [] Fam = "c05" -> C05Cases
+(* ---- c02: backward rules on large tensors; the root is (result * g) with g untracked, so the upstream gradient is arbitrary ---- *)
+GradShapes == << <<66, 64>>, <<1030>>, <<5, 4, 4, 4, 4>>, <<4100, 2>> >>
+C02Cases ==
+  LET G(node, dims, tmpl) == TOut(node, dims, tmpl)
+      un(d, op, kk) == BaseCase("c02", "big-grad-" \o op, <<In("a", d, TRUE), In("g", d, FALSE)>>, <<"small", "any">>,
+                                <<Ins(op, [k |-> kk], <<1>>), Ins("mul", NoPar, <<3, 2>>)>>)
+                       @@ [root |-> 4, ties |-> FALSE, nograd |-> <<2>>, grads |-> <<G(1, d, TGradElem(DUnary(op, kk)))>>]
+      bi(d, op, doms) == BaseCase("c02", "big-grad-" \o op, <<In("a", d, TRUE), In("b", d, TRUE), In("g", d, FALSE)>>, doms,
+                                <<Ins(op, NoPar, <<1, 2>>), Ins("mul", NoPar, <<4, 3>>)>>)
+                       @@ [root |-> 5, ties |-> FALSE, nograd |-> <<3>>, grads |-> <<G(1, d, TGradElem(DBinary(op, "a"))), G(2, d, TGradElem(DBinary(op, "b")))>>]
+      mm(m, n, kk) == BaseCase("c02", "big-grad-matmul", <<In("a", <<m, n>>, TRUE), In("b", <<n, kk>>, TRUE), In("g", <<m, kk>>, FALSE)>>, <<"any", "any", "any">>,
+                                <<Ins("matmul", NoPar, <<1, 2>>), Ins("mul", NoPar, <<4, 3>>)>>)
+                       @@ [root |-> 5, ties |-> FALSE, nograd |-> <<3>>, grads |-> <<G(1, <<m, n>>, TMatMulGradA(m, n, kk)), G(2, <<n, kk>>, TMatMulGradB(m, n, kk))>>]
+      al(d, dim, op) == BaseCase("c02", "big-grad-" \o op, <<In("a", d, TRUE), In("g", DropDim(d, dim + 1), FALSE)>>, <<"any", "any">>,
+                                <<Ins(op, [dim |-> dim], <<1>>), Ins("mul", NoPar, <<3, 2>>)>>)
+                       @@ [root |-> 4, ties |-> FALSE, nograd |-> <<2>>, grads |-> <<G(1, d, TAlongGrad(AlongStat(op), d, dim))>>]
+      tr(d) == BaseCase("c02", "big-grad-transpose", <<In("a", d, TRUE), In("g", SwapLast2(d), FALSE)>>, <<"any", "iota">>,
+                                <<Ins("transpose", NoPar, <<1>>), Ins("mul", NoPar, <<3, 2>>)>>)
+                       @@ [root |-> 4, ties |-> FALSE, nograd |-> <<2>>, grads |-> <<G(1, d, TTransposeN("g", SwapLast2(d)))>>]
+      sl(d, r) == BaseCase("c02", "big-grad-slice", <<In("a", d, TRUE), In("g", SliceDims(r), FALSE)>>, <<"any", "iota">>,
+                                <<Ins("slice", [index |-> r], <<1>>), Ins("mul", NoPar, <<3, 2>>)>>)
+                       @@ [root |-> 4, ties |-> FALSE, nograd |-> <<2>>, grads |-> <<G(1, d, TPatchGen(d, r, Zero, LAMBDA ix : SymAt("g", ix)))>>]
+      cc(da, db, dim) ==
+        LET od == [da EXCEPT ![dim] = da[dim] + db[dim]]
+        IN BaseCase("c02", "big-grad-concat", <<In("a", da, TRUE), In("b", db, TRUE), In("g", od, FALSE)>>, <<"any", "any", "iota">>,
+                                <<Ins("concat", [dim |-> dim - 1], <<1, 2>>), Ins("mul", NoPar, <<4, 3>>)>>)
+           @@ [root |-> 5, ties |-> FALSE, nograd |-> <<3>>,
+               grads |-> <<G(1, da, TSliceN("g", od, [Rng(od) EXCEPT ![dim] = <<0, da[dim]>>])), G(2, db, TSliceN("g", od, [Rng(od) EXCEPT ![dim] = <<da[dim], od[dim]>>]))>>]
+      pa(d, r) == BaseCase("c02", "big-grad-patch", <<In("a", d, TRUE), In("u", SliceDims(r), TRUE), In("g", d, FALSE)>>, <<"any", "any", "iota">>,
+                                <<Ins("patch", [index |-> r], <<1, 2>>), Ins("mul", NoPar, <<4, 3>>)>>)
+                       @@ [root |-> 5, ties |-> FALSE, nograd |-> <<3>>,
+                           grads |-> <<G(1, d, TPatchGen(d, r, SymAt("g", P), LAMBDA ix : Zero)), G(2, SliceDims(r), TSliceN("g", d, r))>>]
+  IN Flatten2([s \in DOMAIN GradShapes |->
+        [u \in DOMAIN UnSpecs |-> un(GradShapes[s], UnSpecs[u][1], UnSpecs[u][2])]
+        \o << bi(GradShapes[s], "mul", <<"any", "any", "any">>), bi(GradShapes[s], "div", <<"any", "nz", "any">>), bi(GradShapes[s], "sub", <<"any", "any", "any">>) >>])
+     \o << mm(70, 70, 3), mm(40, 33, 35), mm(2, 1100, 2), mm(130, 9, 4),
+           al(<<4100, 2>>, 0, "sumalong"), al(<<3, 1500>>, 1, "sumalong"), al(<<5, 16, 16>>, 1, "sumalong"),
+           al(<<4100, 2>>, 0, "avgalong"), al(<<3, 1500>>, 1, "meanalong"), al(<<5, 16, 16>>, 2, "avgalong"),
+           al(<<1100, 4>>, 0, "varalong"), al(<<3, 1500>>, 1, "varalong"), al(<<5, 16, 16>>, 1, "varalong"),
+           tr(<<66, 64>>), tr(<<5, 16, 16>>), tr(<<3, 40, 35>>),
+           sl(<<70, 64>>, <<<<3, 69>>, <<1, 64>>>>), sl(<<5, 16, 16>>, <<<<0, 5>>, <<2, 16>>, <<0, 15>>>>), sl(<<4200>>, <<<<7, 4190>>>>),
+           cc(<<40, 64>>, <<33, 64>>, 1), cc(<<66, 30>>, <<66, 40>>, 2), cc(<<2100>>, <<2100>>, 1),
+           pa(<<70, 64>>, <<<<2, 68>>, <<3, 63>>>>), pa(<<4200>>, <<<<50, 4150>>>>), pa(<<5, 16, 16>>, <<<<1, 5>>, <<0, 16>>, <<0, 16>>>>) >>
+
+Cases == MyCases(CASE Fam = "c02" -> C02Cases [] Fam = "c06" -> C06Cases [] Fam = "c03" -> C03Cases [] Fam = "c14" -> C14Cases [] Fam = "c05" -> C05Cases
                    [] Fam = "c04" -> C04Cases [] Fam = "c07" -> C07Cases [] Fam = "c17" -> C17Cases)
 
 (* ---- the templates are checked against the declarative definitions on the small grid ---- *)
@@ -118,6 +162,54 @@ AllRanges(d) == LET R(k) == {<<lo, hi>> : lo \in 0..(d[k] - 1), hi \in 1..d[k]} 
                     Build(k) == IF k > Len(d) THEN {<<>>} ELSE {<<r>> \o rest : r \in R(k), rest \in Build(k + 1)}
                 IN Build(1)
 UnrollAll(tmpl, n) == [p \in 1..n |-> Unroll(tmpl, ("p" :> (p - 1)), <<>>)]
+(* the gradient templates against the definitional gradient (Prog!GradDef) of the program  root = op(...) * g.          *)
+(* The two sides associate sums and products differently, so they are compared as VALUES under a generic rational       *)
+(* assignment (all symbols get distinct rationals; transcendental applications stay symbolic and must then coincide).   *)
+RatEnv(names, n) == [sy \in names \X (1..n) |-> Q(7 * sy[2] + 3 * Len(sy[1]) - 11, IF sy[1] = "g" THEN 3 ELSE IF sy[1] = "b" THEN 5 ELSE 2)]
+ValOf(seq, env) == [i \in DOMAIN seq |-> Subst(seq[i], env)]
+GradTemplatesAgree ==
+  /\ \A d \in Small : \A u \in DOMAIN UnSpecs :
+        LET inputs == <<In("a", d, TRUE), In("g", d, FALSE)>>
+            code == <<Ins(UnSpecs[u][1], [k |-> UnSpecs[u][2]], <<1>>), Ins("mul", NoPar, <<3, 2>>)>>
+            env == RatEnv({"a", "g"}, Prod(d))
+        IN ValOf(UnrollAll(TGradElem(DUnary(UnSpecs[u][1], UnSpecs[u][2])), Prod(d)), env) = ValOf(GradDef(inputs, code, 4, 1), env)
+  /\ \A d \in Small : \A op \in {"mul", "div", "sub"} :
+        LET inputs == <<In("a", d, TRUE), In("b", d, TRUE), In("g", d, FALSE)>>
+            code == <<Ins(op, NoPar, <<1, 2>>), Ins("mul", NoPar, <<4, 3>>)>>
+            env == RatEnv({"a", "b", "g"}, Prod(d))
+        IN /\ ValOf(UnrollAll(TGradElem(DBinary(op, "a")), Prod(d)), env) = ValOf(GradDef(inputs, code, 5, 1), env)
+           /\ ValOf(UnrollAll(TGradElem(DBinary(op, "b")), Prod(d)), env) = ValOf(GradDef(inputs, code, 5, 2), env)
+  /\ \A m \in 1..3, n \in 1..3, kk \in 1..2 :
+        LET inputs == <<In("a", <<m, n>>, TRUE), In("b", <<n, kk>>, TRUE), In("g", <<m, kk>>, FALSE)>>
+            code == <<Ins("matmul", NoPar, <<1, 2>>), Ins("mul", NoPar, <<4, 3>>)>>
+            env == RatEnv({"a", "b", "g"}, 9)
+        IN /\ ValOf(UnrollAll(TMatMulGradA(m, n, kk), m * n), env) = ValOf(GradDef(inputs, code, 5, 1), env)
+           /\ ValOf(UnrollAll(TMatMulGradB(m, n, kk), n * kk), env) = ValOf(GradDef(inputs, code, 5, 2), env)
+  /\ \A d \in Small : \A dim \in 0..(Len(d) - 1) : \A op \in {"sumalong", "avgalong", "varalong"} :
+        (op = "varalong" => d[dim + 1] > 1) =>
+        LET inputs == <<In("a", d, TRUE), In("g", DropDim(d, dim + 1), FALSE)>>
+            code == <<Ins(op, [dim |-> dim], <<1>>), Ins("mul", NoPar, <<3, 2>>)>>
+            env == RatEnv({"a", "g"}, Prod(d))
+        IN ValOf(UnrollAll(TAlongGrad(AlongStat(op), d, dim), Prod(d)), env) = ValOf(GradDef(inputs, code, 4, 1), env)
+  /\ \A d \in Small : Len(d) >= 2 =>
+        LET inputs == <<In("a", d, TRUE), In("g", SwapLast2(d), FALSE)>>
+            code == <<Ins("transpose", NoPar, <<1>>), Ins("mul", NoPar, <<3, 2>>)>>
+        IN UnrollAll(TTransposeN("g", SwapLast2(d)), Prod(d)) = GradDef(inputs, code, 4, 1)
+  /\ \A d \in Small : \A r \in AllRanges(d) :
+        /\ LET inputs == <<In("a", d, TRUE), In("g", SliceDims(r), FALSE)>>
+               code == <<Ins("slice", [index |-> r], <<1>>), Ins("mul", NoPar, <<3, 2>>)>>
+           IN UnrollAll(TPatchGen(d, r, Zero, LAMBDA ix : SymAt("g", ix)), Prod(d)) = GradDef(inputs, code, 4, 1)
+        /\ LET inputs == <<In("a", d, TRUE), In("u", SliceDims(r), TRUE), In("g", d, FALSE)>>
+               code == <<Ins("patch", [index |-> r], <<1, 2>>), Ins("mul", NoPar, <<4, 3>>)>>
+           IN /\ UnrollAll(TPatchGen(d, r, SymAt("g", P), LAMBDA ix : Zero), Prod(d)) = GradDef(inputs, code, 5, 1)
+              /\ UnrollAll(TSliceN("g", d, r), Prod(SliceDims(r))) = GradDef(inputs, code, 5, 2)
+  /\ \A d \in Small : \A dim \in DOMAIN d : \A n \in 1..2 :
+        LET bd == [d EXCEPT ![dim] = n]
+            od == [d EXCEPT ![dim] = d[dim] + n]
+            inputs == <<In("a", d, TRUE), In("b", bd, TRUE), In("g", od, FALSE)>>
+            code == <<Ins("concat", [dim |-> dim - 1], <<1, 2>>), Ins("mul", NoPar, <<4, 3>>)>>
+        IN /\ UnrollAll(TSliceN("g", od, [Rng(od) EXCEPT ![dim] = <<0, d[dim]>>]), Prod(d)) = GradDef(inputs, code, 5, 1)
+           /\ UnrollAll(TSliceN("g", od, [Rng(od) EXCEPT ![dim] = <<d[dim], od[dim]>>]), Prod(bd)) = GradDef(inputs, code, 5, 2)
 TemplatesAgree ==
   /\ \A d \in Small : \A u \in DOMAIN UnSpecs :
         UnrollAll(TUnary(UnSpecs[u][1], UnSpecs[u][2]), Prod(d)) = Unary(UnSpecs[u][1], UnSpecs[u][2], SymT("a", d)).data
@@ -153,6 +245,7 @@ TemplatesAgree ==
         LET src == [i \in 1..(Len(t) - k + 1) |-> IF i \in mask THEN 1 ELSE t[k - 1 + i]]
         IN UnrollAll(TBroadcastTo(src, t), Prod(t)) = Broadcast(SymT("a", src), t).data
   /\ \A n \in 1..4 : UnrollAll(TEye(n), n * n) = Eye(n).data
+  /\ GradTemplatesAgree
   /\ \A d \in Small : UnrollAll(TSgd(Half), Prod(d)) = SGDStep(SymT("w", d), SymT("c", d), Half).data
 ASSUME TemplatesAgree
 
